@@ -76,6 +76,25 @@ func Scenarios2() []History {
 	}
 	add("slash-threshold-is-of-the-current-price", smallParams(), nil, ops...)
 
+	// the first named provider is not eligible when the consumer cannot pay (pause) and when a module
+	// context falls short of its threshold (skip); later it is eligible again and must be served
+	ops = registry(map[string]int64{"p1": 5, "p2": 3, "p3": 4})
+	ops = append(ops,
+		Ev{Name: "Disable", Signer: "o1", Svc: "s1", Prov: "p1"},
+		Ev{Name: "Call", Signer: "c1", Svc: "s1", Provs: []string{"p1", "p2", "p3"}, Cap: 10, Timeout: 2, Rep: true, Freq: 2, Total: 4},
+		Ev{Name: "ModCreate", Signer: "c2", Svc: "s1", Provs: []string{"p1", "p3", "p2"}, Cap: 10, Timeout: 2, Rep: true, Freq: 2, Total: 4, Thr: 3},
+		eb(1), // c1 cannot pay p2+p3: paused; the module context has two eligible of three required: skipped
+		Ev{Name: "Obs"},
+		Ev{Name: "Enable", Signer: "o1", Svc: "s1", Prov: "p1"},
+		Ev{Name: "BankSend", Signer: "o1", To: "c1", Amount: 60},
+		Ev{Name: "Start", Signer: "c1", ID: 1},
+		eb(1), eb(1),
+		Ev{Name: "Respond", Signer: "p1", Rid: rid(1, 1, 2, 0), Kind: "valid"},
+		Ev{Name: "Respond", Signer: "p1", Rid: rid(2, 2, 3, 0), Kind: "valid"},
+		eb(1), eb(1), eb(1),
+	)
+	add("first-named-provider-ineligible-at-pause-and-skip", smallParams(), map[string]int64{"c1": 6}, ops...)
+
 	return hs
 }
 
